@@ -56,6 +56,15 @@ fn num_spec() -> Rc<SpecTable> {
 }
 
 pub fn check_written(p: &Payload) -> Result<u64, String> {
+    let mut n = check_written_opt(p, WOpt::Default)?;
+    // the payload is the same whatever width is requested for the size field in front of it
+    for w in 1..=8u8 {
+        n += check_written_opt(p, WOpt::Width(w))?;
+    }
+    Ok(n)
+}
+
+fn check_written_opt(p: &Payload, opt: WOpt) -> Result<u64, String> {
     set_current(num_spec());
     let id = match p {
         Payload::U(_) => U_ID,
@@ -63,13 +72,18 @@ pub fn check_written(p: &Payload) -> Result<u64, String> {
         Payload::F(_) => F_ID,
         _ => unreachable!(),
     };
-    let ops = vec![WOp::Write(Flat::Leaf(id, p.clone()), WOpt::Default)];
-    let bytes = write_ops::<DynTag>(&ops).map_err(|(_, e)| format!("writing {:?} failed: {:?}", p, e))?;
+    let ops = vec![WOp::Write(Flat::Leaf(id, p.clone()), opt.clone())];
+    let bytes = write_ops::<DynTag>(&ops).map_err(|(_, e)| format!("writing {:?} with {:?} failed: {:?}", p, opt, e))?;
     let RefHeader::Ok { id: hid, id_len, size: RefSize::Known(n), size_len } = ref_header(&bytes, 0) else {
-        return Err(format!("writer output for {:?} has no parsable header: {:02x?}", p, bytes));
+        return Err(format!("writer output for {:?} ({:?}) has no parsable header: {:02x?}", p, opt, bytes));
     };
     if hid != id {
         return Err(format!("writer output for {:?} carries id {:#x}", p, hid));
+    }
+    if let WOpt::Width(w) = opt {
+        if size_len != w as usize {
+            return Err(format!("writer output for {:?} with set_size_byte_count({}) has a {}-byte size field: {:02x?}", p, w, size_len, bytes));
+        }
     }
     let start = id_len + size_len;
     if bytes.len() != start + n as usize {
